@@ -32,10 +32,12 @@ def run(rep, facts, tier):
     rep.rule('C01.R2', 'every placeholder jump is recorded in a pending flow (or patched in place) and every such flow has a patching consumer')
     rep.rule('C01.R3', 'loop closers drain Break; only the counted-loop closer builds Opcode::Break')
     rep.rule('C01.R4', 'loop / return stack balance of the VM arms')
+    rep.rule('C01.R5', 'bindings: `local` re-binds its own slot; a variable definition allocates a fresh cell, enters it in the dictionary and compiles that cell')
     r1(rep, fx)
     r2(rep, fx)
     r3(rep, fx)
     r4(rep, fx)
+    r5(rep, fx)
 
 
 def r1(rep, fx):
@@ -328,3 +330,120 @@ def r4(rep, fx):
                 'arm %s has no loop/return stack effect other than its own' % arm if ok else
                 'arm %s touches the %s stack (bb%s)' % (arm, 'loop' if stray_l else 'return', sorted(stray_l or stray_r)), far.name, far.at(start),
                 nontrivial=False)
+
+
+def r5(rep, fx):
+    """bindings.  (a) Opcode::InitLocal(i): when slot i exists it is overwritten (a `local` executed again in a loop re-binds
+    its variable), a new slot is appended only otherwise - LoadLocal(i) reads slot i, so any other shape makes later reads see
+    a stale binding.  (b) a word that defines a global variable allocates a cell (alloc_heap), inserts Entry::Variable(that
+    cell) on every successful path, and the Store it compiles names that very cell: a redefinition never shares storage with
+    the definition it shadows."""
+    from .. import inline
+    from .c08 import guard_facts
+    from ..zone import strip as zstrip
+    tracked = awrite.state_tracked(fx)
+    V = inline.View(fx)
+    fx.need('state::State::fetch_and_run')
+    far = V('state::State::fetch_and_run')
+    sw = None
+    for bb in sorted(far.reachable_blocks()):
+        t = far.blocks[bb]['term']
+        if t['k'] == 'switch':
+            e = far.expr_of_operand(t['discr'])
+            if isinstance(e, tuple) and e[0] == 'discr' and e[2] == 'opcodes::Opcode':
+                sw = bb
+                break
+    if sw is None:
+        raise MissingAnchor('Opcode switch')
+    variants = None
+    for b2 in far.reachable_blocks():
+        for st in far.blocks[b2]['stmts']:
+            if st['k'] == 'assign' and st['rv']['k'] == 'discr' and st['rv'].get('adt') == 'opcodes::Opcode':
+                variants = dict(st['rv']['variants'])
+    arms = {variants.get(v, str(v)): tgt for v, tgt in far.blocks[sw]['term']['targets']}
+    tgt = arms.get('InitLocal')
+    if tgt is None:
+        raise MissingAnchor('Opcode::InitLocal arm')
+    dom = far.dominators()
+    region = {b for b, d in dom.items() if d is not None and tgt in d}
+    ws = [w for w in awrite.field_writes(fx, far, tracked) if w['bb'] in region and w['field'][0] == 'return_stack']
+
+    def txt(w):
+        if w.get('term'):
+            return ' '.join(expr_str(far.expr_of_operand(a), -40) for a in w['term']['args'])
+        return expr_str(far.expr_of_place(w['stmt']['lhs']), -40)
+    over = [w for w in ws if (w['how'].startswith('call:overwrite') or w['how'].startswith('assign')) and 'locals' in txt(w) and 'InitLocal' in txt(w)]
+    grow = [w for w in ws if w['how'].startswith('call:grow') and 'locals' in txt(w)]
+    ok_over = False
+    for w in over:
+        for (op, a, b) in guard_facts(far, w['bb']):
+            sa, sb = expr_str(zstrip(a), -20), expr_str(zstrip(b), -20)
+            if op == 'Lt' and 'InitLocal' in sa and 'locals' in sb or op == 'Gt' and 'InitLocal' in sb and 'locals' in sa:
+                ok_over = True
+        if 'get_mut' in txt(w) or 'set_mut' in txt(w):
+            ok_over = True      # checked accessor: Some only when the slot exists
+    rep.add('C01.R5', 'C01.R5:InitLocal:rebinds-existing-slot', ok_over,
+            'slot i is overwritten when i < locals.len()' if ok_over else
+            'the InitLocal arm never overwrites slot i of the frame: a `local` executed a second time in the same call (loop body) leaves the first '
+            'binding in place and LoadLocal(i) keeps reading it', far.name, far.at(tgt))
+    ok_grow = bool(grow) and all(any((op in ('Ge', 'Gt', 'Eq', 'Le', 'Lt')) and 'InitLocal' in expr_str(zstrip(a), -20) + expr_str(zstrip(b), -20)
+                                     and 'locals' in expr_str(zstrip(a), -20) + expr_str(zstrip(b), -20) for (op, a, b) in guard_facts(far, w['bb']))
+                                 for w in grow)
+    rep.add('C01.R5', 'C01.R5:InitLocal:appends-only-new-slot', ok_grow,
+            'a slot is appended only on the side of the i-vs-len test where slot i does not exist' if ok_grow else
+            'the InitLocal arm appends a slot without testing the slot index against locals.len()', far.name, far.at(tgt))
+
+    # (b) variable definitions
+    ALLOC = 'state::State::alloc_heap'
+    INS = 'state::State::dict_insert'
+    n = 0
+    # defining units: functions that both allocate and insert; when the two were split over helpers, the innermost
+    # non-helper function whose view (helpers spliced in) contains both
+    direct = {fn for fn, f0 in fx.fns.items() if {ALLOC, INS} <= {callee_of(t) for _, t in f0.calls()}}
+    units = [fx.fns[fn] for fn in sorted(direct)]
+    cand = set()
+    for c in fx.callers().get(ALLOC, ()):
+        cand |= {c} | set(fx.callers().get(c, ()))
+    for fn in sorted(cand - direct):
+        if fn not in fx.fns or (V.transparent(fn) and fx.callers().get(fn)):
+            continue
+        if set(V.inlined_into(fn)) & direct:
+            continue          # it merely calls a defining unit
+        fv = V(fn)
+        if {ALLOC, INS} <= {callee_of(t) for _, t in fv.calls()}:
+            units.append(fv)
+    for f in units:
+        fn = f.name
+        n += 1
+        # the Entry::Variable inserted carries the allocated cell
+        ent = []
+        stores = []
+        for bb in f.reachable_blocks():
+            for st in f.blocks[bb]['stmts']:
+                if st['k'] == 'assign' and st['rv']['k'] == 'agg' and not st.get('exp'):
+                    if st['rv'].get('adt') == 'state::Entry' and st['rv'].get('variant') == 'Variable':
+                        ent.append(f.expr_of_operand(st['rv']['fields'][0]))
+                    if st['rv'].get('adt') == 'opcodes::Opcode' and st['rv'].get('variant') in ('Store', 'Load'):
+                        stores.append((st['rv']['variant'], f.expr_of_operand(st['rv']['fields'][0]), st.get('at')))
+
+        def fresh_only(e):
+            e = unwrap_value(e)
+            if isinstance(e, tuple) and e[0] == 'phi':
+                return all(fresh_only(x) for x in e[1])
+            return isinstance(e, tuple) and e[0] == 'call' and e[1] == ALLOC
+        ok_e = bool(ent) and all(fresh_only(e) for e in ent)
+        rep.add('C01.R5', 'C01.R5:%s:entry-is-fresh-cell' % fn, ok_e, 'Entry::Variable(alloc_heap(..))' if ok_e else
+                '%s enters a variable whose cell is not the one it just allocated (%s)' % (short(fn), [expr_str(e)[:50] for e in ent]), fn, f.j['span'])
+        for (var, e, at) in stores:
+            ok_s = fresh_only(e)
+            rep.add('C01.R5', 'C01.R5:%s:compiles-%s-of-fresh-cell' % (fn, var), ok_s, 'Opcode::%s(alloc_heap(..))' % var if ok_s else
+                    '%s compiles %s of %s: on some path the cell is not the one allocated for this definition - a redefinition shares storage '
+                    'with the variable it shadows and words compiled earlier see the new value' % (short(fn), var, expr_str(e)[:70]), fn, at)
+        # every Ok return passes dict_insert
+        oks = {bb for (bb, i, cls, d) in return_defs(f, follow=True) if cls in ('ok', 'forward')}
+        ins_blocks = {bb for bb, t in f.calls() if callee_of(t) == INS}
+        p = exists_path_avoiding(f, 0, lambda b: b in oks, ins_blocks)
+        rep.add('C01.R5', 'C01.R5:%s:always-enters-dictionary' % fn, p is None, 'every successful path inserts the new entry' if p is None else
+                '%s can succeed without inserting a dictionary entry (bb%s): the new definition does not shadow the old one'
+                % (short(fn), '->bb'.join(map(str, p[:8]))), fn, f.j['span'])
+    rep.floor('C01.R5 variable-defining functions', n, 1)
